@@ -50,7 +50,33 @@ func c06R11(c *Ctx, r *Report) {
 		for _, ri := range c.findRecoverDefers(fn) {
 			ri := ri
 			cons := fnKey(ri.Closure) + " / every panic path reports"
-			isReport := isCallInstrTo("modules.ModuleError.Report")
+			isReportCall := isCallInstrTo("modules.ModuleError.Report")
+			var alwaysReports func(f *ssa.Function, d int) bool
+			alwaysReports = func(f *ssa.Function, d int) bool {
+				if f == nil || f.Blocks == nil || d > 2 {
+					return false
+				}
+				return ReachInstr(f, nil, isExit, func(in ssa.Instruction) bool {
+					if isReportCall(in) {
+						return true
+					}
+					ci, ok := in.(ssa.CallInstruction)
+					return ok && alwaysReports(staticCallee(ci.Common()), d+1)
+				}) == nil
+			}
+			isReport := func(in ssa.Instruction) bool {
+				if isReportCall(in) {
+					return true
+				}
+				ci, ok := in.(ssa.CallInstruction)
+				if !ok {
+					return false
+				}
+				if _, isDefer := in.(*ssa.Defer); isDefer {
+					return false
+				}
+				return alwaysReports(staticCallee(ci.Common()), 1)
+			}
 			if !funcHas(ri.Closure, 0, isReport) {
 				r.Bad(rule, cons, "the recovery handler never calls ModuleError.Report: a recovered panic is not reported through the module error channel", c.Pos(ri.Defer.Pos()))
 				continue
